@@ -95,6 +95,7 @@ class LFDomain:
         self.share_memo = False   # share divmod atoms across paths (only for fork-free kernels)
         self.feas_timeout_ms = 4000
         self.lemmas = []  # extra LFConds assumed in every query (justified by the harness)
+        self.strip_multiples = True
 
     # ------------------------------------------------------------ atoms
     def new_atom(self, kind, lo, hi, name=None, **kw):
@@ -227,6 +228,20 @@ class LFDomain:
             res = (LF({ea: 1}), LF())
             memo[key] = res
             return res
+        if self.strip_multiples:
+            # canonical form: f = m*h + f0 with h collecting the terms whose coefficient is a multiple of m (carries /
+            # borrows of earlier word operations) => f div m = h + (f0 div m), f mod m = f0 mod m.  The remainder and
+            # quotient atoms are then those of the flattened sum f0, whatever the order in which the words were
+            # accumulated; the quotient keeps the tight interval of f through an exact atom defined as h + q0.
+            ht = {a: k // m for a, k in ef.t.items() if k % m == 0}
+            if ht:
+                f0 = LF({a: k for a, k in ef.t.items() if k % m != 0}, ef.c % m)
+                h = LF(ht, ef.c // m)
+                q0, r0 = self.divmod(path, f0, m)
+                qe = self.new_atom("e", lo // m, hi // m, m=1, form=h + q0)
+                res = (LF({qe: 1}), r0)
+                memo[key] = res
+                return res
         qa = self.new_atom("q", lo // m, hi // m, m=m)
         ra = self.new_atom("r", 0, m - 1, m=m, q=qa, form=f)
         self.atoms[qa]["r"] = ra
